@@ -572,7 +572,7 @@ def make_inputs(interp, c, via=None):
         # the proved contract is stated for (its shapes are its type-preconditions)
         from .api import Opaq
         for name, ty in via.params.items():
-            if name not in params or isinstance(params[name], Opaq):
+            if name not in params or isinstance(params[name], Opaq) or getattr(c, 'refine_with_proved_shapes', False):
                 params[name] = ty
     for name, ty in params.items():
         args[name] = ty.make(interp, name) if isinstance(ty, Ty) else ty
